@@ -33,7 +33,7 @@ def _gen(ctx, with_push):
         r = ctx.tlc("GenRatchet", "Gen_Ratchet.cfg", name="gen_W%d_N%d" % (W, N), workers=1 if quick else 4,
                     consts={"W": str(W), "N": str(N), "MaxSent": str(ms), "MaxLen": str(ml), "WithPush": push},
                     timeout=1200, heap="8g")
-        add(W, N, r.printed.get("SCRIPT", []), limit=6000 if quick else 60000)
+        add(W, N, r.printed.get("SCRIPT", []), limit=6000 if quick else 30000)
     # 3. random walks: unphased, two senders, larger windows and the default 100/100
     sims = [(2, 2, 8, 14, 300), (4, 2, 10, 16, 300), (100, 100, 30, 40, 60)] if quick else \
            [(2, 2, 8, 14, 3000), (4, 2, 12, 20, 3000), (3, 5, 12, 20, 2000), (100, 100, 60, 80, 400), (100, 100, 250, 300, 40)]
